@@ -5,6 +5,7 @@ package core
 import (
 	"context"
 	"fmt"
+	"runtime/debug"
 	"sort"
 	"strings"
 	"sync"
@@ -119,7 +120,13 @@ func (c *Ctx) Actor(name string, f func()) *simrt.Task {
 				if simrt.IsKill(r) {
 					panic(r)
 				}
-				c.S.Fail(c.panicOracle(), "panic in %s: %v", name, r)
+				oracle := c.panicOracle()
+				if c.PanicClassify != nil {
+					if o := c.PanicClassify("actor:" + name + "\n" + fmt.Sprint(r) + "\n" + string(debug.Stack())); o != "" {
+						oracle = o
+					}
+				}
+				c.S.Fail(oracle, "panic in %s: %v", name, r)
 			}
 		}()
 		f()
